@@ -314,9 +314,9 @@ func VerifC10Consistency() {
 		}
 		a["depends_on"] = deps
 	}
-	// the verdict must not depend on map iteration order inside the library: explore it reversed too
+	// the verdict must not depend on map iteration order inside the library: explore it sorted ascending and descending too
 	// (observations are not recorded under a perturbed order: natively the order is random)
-	order := []int{0, 1, 3, 4}[vrtChoice("maporder", 4)]
+	order := []int{0, 3, 4}[vrtChoice("maporder", 3)]
 	vrtMapOrder(order)
 	docs := []map[string]any{doc}
 	if c10Later != nil {
